@@ -320,6 +320,8 @@ def C12(rep, prog, tier):
                 be = mcsops.Backend(name, cls, lex=lex)
                 site, paths = mcsops.w_entry(rep, ex, be, strict=True, extended=True, prefix="LEX" if lex else "W", keys=True, n_objects=2 if lex else 1)
                 _run(rep, wrappers.noninterference, ex, site, paths)
+                if name == "z3":
+                    _run(rep, mcsops.preprocess_flow, ex, be, "LEX" if lex else "W")
                 if lex:
                     _run(rep, mcsops.lex_rec, ex, be)
                     _run(rep, mcsops.lex_ties, ex, be)
@@ -607,6 +609,7 @@ def C18(rep, prog, tier):
     _run(rep, preocf.cond_filter, ex)
     _run(rep, preocf.tpo_order, ex)
     _run(rep, preocf.factory_forwarding, ex, which=("init_custom",))
+    _run(rep, preocf.custom_init, ex)
 
 
 def C20(rep, prog, tier):
